@@ -61,7 +61,7 @@ type cacheEnv struct {
 	snap    map[string]map[string]string // target -> key -> deterministic encoding of the stored notification
 	leaves  map[string]map[string]*pb.Notification
 	memo    map[*pb.Notification]string // encoding of a stored notification, taken when it is first seen
-	dead    bool // a panic was recovered: locks may still be held, the cache must not be touched again
+	dead    bool                        // a panic was recovered: locks may still be held, the cache must not be touched again
 }
 
 var detMarshal = proto.MarshalOptions{Deterministic: true}
@@ -133,7 +133,7 @@ func (allowACL) Check(string) bool { return true }
 type serverACL struct{}
 
 func (serverACL) NewRPCACL(context.Context) (subscribe.RPCACL, error) { return allowACL{}, nil }
-func (serverACL) Check(string, string) bool                          { return true }
+func (serverACL) Check(string, string) bool                           { return true }
 
 func up(target, origin string, ts int64, atomicN bool, pre []string, parts ...*pb.Update) *pb.Notification {
 	n := &pb.Notification{Timestamp: ts, Prefix: &pb.Path{Target: target, Origin: origin}, Atomic: atomicN, Update: parts}
@@ -151,10 +151,14 @@ func leaf(v *pb.TypedValue, names ...string) *pb.Update {
 	return &pb.Update{Path: p, Val: v}
 }
 
-func tvS(s string) *pb.TypedValue  { return &pb.TypedValue{Value: &pb.TypedValue_StringVal{StringVal: s}} }
-func tvI(i int64) *pb.TypedValue   { return &pb.TypedValue{Value: &pb.TypedValue_IntVal{IntVal: i}} }
-func tvB(b bool) *pb.TypedValue    { return &pb.TypedValue{Value: &pb.TypedValue_BoolVal{BoolVal: b}} }
-func tvD(d float64) *pb.TypedValue { return &pb.TypedValue{Value: &pb.TypedValue_DoubleVal{DoubleVal: d}} }
+func tvS(s string) *pb.TypedValue {
+	return &pb.TypedValue{Value: &pb.TypedValue_StringVal{StringVal: s}}
+}
+func tvI(i int64) *pb.TypedValue { return &pb.TypedValue{Value: &pb.TypedValue_IntVal{IntVal: i}} }
+func tvB(b bool) *pb.TypedValue  { return &pb.TypedValue{Value: &pb.TypedValue_BoolVal{BoolVal: b}} }
+func tvD(d float64) *pb.TypedValue {
+	return &pb.TypedValue{Value: &pb.TypedValue_DoubleVal{DoubleVal: d}}
+}
 
 // populate stores the "hot" leaves the grammar aims at, through the real ingest path.
 func populate(c *cache.Cache, t string, ts int64) {
@@ -425,7 +429,9 @@ func (e *cacheEnv) stateFor(n *pb.Notification) *cacheState {
 func (ct *cacheTrial) rebuild() *cacheEnv {
 	var env *cacheEnv
 	atomic.StoreInt64(&vclock, ct.startClock)
-	if guard(func() { env = buildState(ct.env.kind, rand.New(rand.NewSource(ct.stateSeed)), ct.startClock-2*int64(time.Second)) }) != nil {
+	if guard(func() {
+		env = buildState(ct.env.kind, rand.New(rand.NewSource(ct.stateSeed)), ct.startClock-2*int64(time.Second))
+	}) != nil {
 		return nil
 	}
 	for _, a := range ct.applied[:len(ct.applied)-1] {
